@@ -37,6 +37,20 @@ variable, macro and call-block parameter) x 10 positions of the statement (top
 level, if, for, macro, block, call block, with, filter block, set block,
 autoescape block).  Forms the parser rejects are dropped as syntax errors;
 whether a form executes is decided by rendering it with a namespace object.
+*Attribute targets whose base name is bound again* (vt/gen/c19_rebind.py):
+which object `x` in `x.attr` denotes depends on the scope the name is looked
+up in, so every assignment form with an attribute target (set, tuple set, two
+attributes, block set with filter / nested in a set block / nested in a set
+block with the same target / followed by a read, right-hand sides and bodies
+that read the name) is crossed with 21 constructs that bind the same base name
+again (inner set to a namespace / with data / in an if / in a tuple / twice /
+to another context container / to itself, block set of the name, a set block
+with the same target, import aliases, a macro of that name, for target / tuple
+target / else branch, with, macro parameter and default, call-block parameter)
+in every position: before the statement, inside the body of the block set,
+inside a loop in that body, after the statement, around it (the statement in
+the scope the construct opens), and in the statement's own target list - x the
+references to context containers x the 10 positions of the whole statement.
 *Filters under configured policies*: every built-in filter x the first two
 positions and every parameter of its signature (inspect) x container arguments
 from the context (lists / dicts of ints and of strings, set, deque, nested
@@ -69,13 +83,15 @@ import copy
 import inspect
 
 from vt.gen import c19_entries as E
+from vt.gen import c19_rebind as RB
 
 PID = "C19"
 LEVEL = "exploration"
 TECHNIQUE = ("before/after deep comparison of context containers (default and fully non-default "
              "environment policies) + execution-derived mutator ground truth, "
              "enumerated method x argument x path table (on instances and through type objects), filter x "
-             "argument table, attribute targets in every name-binding statement form, and the caller's "
+             "argument table, attribute targets in every name-binding statement form, attribute targets "
+             "whose base name is shadowed or rebound before / inside / after / around the statement, and the caller's "
              "mapping itself compared over every documented entry point x context-deriving construct")
 RULE = ("method cases: (container type, target expression, name from dir(type), argument tuple "
         "from a fixed pool, template path, sync/async), enumerated completely; filter cases: "
@@ -102,7 +118,20 @@ RULE = ("method cases: (container type, target expression, name from dir(type), 
         "filter results, loop variables, macro and call-block parameters] x 10 positions of the statement "
         "x attribute names new/existing) for every form the parser accepts, the rejected forms once per "
         "reference (quick: top level plus a rotating third of the other positions, one attribute name "
-        "and one sync/autoescape combination per row); policy-table cases: (filter from env.filters x "
+        "and one sync/autoescape combination per row); rebound-name cases: (12 assignment forms with an "
+        "attribute target [set, right-hand side reading the name, tuple first / last, two attributes, block "
+        "set plain / text first / with filter / body reading the name / nested in a set block with the same "
+        "target / nested in another set block / followed by a read] x 21 constructs binding the base name "
+        "again [set to a namespace plain / with data / in an if / in a tuple / twice, set to another "
+        "container, set to itself, block set of the name, set block with the same target, import-as, "
+        "from-import-as, macro of that name, for target / tuple target / target then set / else, with, with "
+        "of two names, macro parameter / default parameter, call-block parameter] x position [before, inside "
+        "the block body, inside a loop in the block body, after, around (scoped constructs), plus 3 forms "
+        "whose own tuple target binds the name] x 18 references x 10 positions of the whole x attribute "
+        "name), thorough: all references and positions, one rotating sync/autoescape combination per row; quick: per "
+        "(form, construct, position) the context dict d, two rotating container references and one "
+        "namespace control at one rotating position of the whole; "
+        "policy-table cases: (filter from env.filters x "
         "[positional argument 1, positional argument 2, keyword argument named after each parameter of "
         "the filter's signature] x container argument from the context [list/dict of ints, list/dict of "
         "strings, set, deque, nested list] x one (thorough: four) rotating input(s) from [7 container "
@@ -141,6 +170,7 @@ ASSUMPTIONS = [
     "set statements with attribute targets: only the before/after comparison of the context data is judged (the documentation promises an exception for non-namespace targets; which one is not checked here); a namespace built from context data is a new object, so assigning its attributes must leave that data as it was",
     "type objects: a call counts as an attempted modification iff executing getattr(type object, name)(container, arguments) on a deep copy changes the copy; only names that are methods of the container's builtin type or of its ABC are generated - methods a class adds on its own (Counter.subtract, OrderedDict.move_to_end) are application-provided functions like any helper the application passes in, not methods of list/dict/set/deque; Y['name'] and map(attribute='name') on a type object may subscript the type instead of reaching the method, there only the data comparison is judged",
     "attribute targets: only the before/after comparison of the context data is judged, never which exception is raised; a statement form counts as exercised when it compiles (the namespace controls show how many forms run to completion)",
+    "rebound names: only the before/after comparison of the context data is judged - whether the statement raises, or legitimately stores into a namespace the name denotes at that point, is not; the namespace references are controls (rebind_namespace_controls_ok counts the generated templates that run to the end when the name is a namespace all along), forms the parser rejects are dropped as syntax errors",
     "policies: only the policies documented in docs/api.rst are configured (the counter policies_set_non_default reports how many of the documented names the two sets cover); values are type-correct per that documentation (json.dumps_function is a function with the signature of json.dumps); the policy objects themselves are not compared, only the context data",
     "environments of this check load the do and i18n extensions, a DictLoader with one macro library and a globals entry holding the four container types",
     "entry points: the caller's mapping is an exact dict reachable from the context (with shared=True it IS the context's parent, 'passed as is'; the implementation's own comment says 'we don't want to modify the dict passed'); the `locals` parameter of new_context / make_module is documented ('a dict of local variables for internal usage') and is passed a fresh dict; templates of this group use no globals (a shared context has none) and receive a pass_context callable as data; blocks are called with a fresh context per block",
@@ -170,6 +200,14 @@ FLOORS = {
                            "target_cases:container": 200, "target_block_set_cases": 160,
                            "target_namespace_controls_ok": 26, "target_forms_executing": 4,
                            "type_defined_checks": 68,
+                           "assign_cases:rebind": 850, "rebind_cases:container": 640,
+                           "rebind_namespace_controls_ok": 170,
+                           "rebind_position:before": 240, "rebind_position:inside": 140,
+                           "rebind_position:inside-loop": 140, "rebind_position:after": 240,
+                           "rebind_position:around": 100, "rebind_position:same-statement": 8,
+                           **{"rebind_way:" + w: 35 for w in RB.WAYS},
+                           **{"rebind_form:" + f: (45 if "@BODY@" not in t else 85)
+                              for f, t in RB.FORMS.items()},
                            "policy_table_cases": 580,
                            "policy_table_cases:non-default-policies": 370,
                            "policy_table_cases:default-policies": 210,
@@ -202,6 +240,14 @@ FLOORS = {
                               "target_cases:container": 6000, "target_block_set_cases": 4800,
                               "target_namespace_controls_ok": 780, "target_forms_executing": 4,
                               "type_defined_checks": 400,
+                              "assign_cases:rebind": 40000, "rebind_cases:container": 36000,
+                              "rebind_namespace_controls_ok": 3500,
+                              "rebind_position:before": 11000, "rebind_position:inside": 6500,
+                              "rebind_position:inside-loop": 6500, "rebind_position:after": 11000,
+                              "rebind_position:around": 4800, "rebind_position:same-statement": 90,
+                              **{"rebind_way:" + w: 1700 for w in RB.WAYS},
+                              **{"rebind_form:" + f: (2200 if "@BODY@" not in t else 4000)
+                                 for f, t in RB.FORMS.items()},
                               "policy_table_cases": 15000,
                               "policy_table_cases:non-default-policies": 11800,
                               "policy_table_cases:default-policies": 3400,
@@ -1135,6 +1181,48 @@ def target_statements(quick, seed):
     return out
 
 
+# -------------------------------- attribute targets whose base name is rebound
+# vt/gen/c19_rebind.py: every assignment form with an attribute target x every
+# construct that binds the target's base name again (inner set, for target,
+# with, macro / call-block parameter, import alias, a set block with the same
+# target ...) x its position (before / inside the body / inside a loop in the
+# body / after / around the statement / in the statement's own target list) x
+# references to context containers x positions of the whole in the template.
+REBIND_CONTAINER_REFS = [r for r, v in TARGET_REFS.items() if v[3] != "namespace"]
+REBIND_NAMESPACE_REFS = [r for r, v in TARGET_REFS.items() if v[3] == "namespace"]
+
+
+def rebind_statements(quick, seed):
+    """-> [(key, source, tags, shape)]"""
+    out = []
+    placements = list(TARGET_PLACEMENTS)
+    nc, nn = len(REBIND_CONTAINER_REFS), len(REBIND_NAMESPACE_REFS)
+    for row, (form, way, position, text) in enumerate(RB.sources()):
+        r = row + seed
+        if quick and position != "same-statement":
+            # the plain context dict always, two rotating other references, one namespace control
+            refs = list(dict.fromkeys(["d", REBIND_CONTAINER_REFS[r % nc],
+                                       REBIND_CONTAINER_REFS[(r + 5) % nc],
+                                       REBIND_NAMESPACE_REFS[r % nn]]))
+        else:
+            refs = list(TARGET_REFS)
+        for ri, ref in enumerate(refs):
+            wrap, name, how, typ = TARGET_REFS[ref]
+            if quick:
+                pls = ["top" if (r + ri) % 3 == 0 else placements[(r + ri) % len(placements)]]
+            else:
+                pls = placements
+            attr = TARGET_ATTRS[(r + ri) % len(TARGET_ATTRS)]
+            stmt = text.replace("@X@", name).replace("@K@", attr)
+            for placement in pls:
+                tags = ["rebind_cases:" + ("namespace" if typ == "namespace" else "container"),
+                        "rebind_position:" + position, "rebind_way:" + way, "rebind_form:" + form]
+                src = wrap.replace("BODY", TARGET_PLACEMENTS[placement].replace("BODY", stmt))
+                out.append((f"assign-target-rebound:{form}:{way}:{position}", src, tags,
+                            [form, way, position, ref, how, placement, attr]))
+    return out
+
+
 def statement_case(ctx, case, count=True):
     source, is_async = case["source"], case["async"]
     autoescape = bool(case.get("autoescape", False))
@@ -1154,6 +1242,10 @@ def statement_case(ctx, case, count=True):
             if tag == "target_cases:namespace" and outcome == "ok":
                 # the statement form ran to the end with a namespace as its object
                 ctx.count("target_namespace_controls_ok")
+            if tag == "rebind_cases:namespace" and outcome == "ok":
+                ctx.count("rebind_namespace_controls_ok")
+            if tag == "rebind_cases:container":
+                ctx.count("rebind_container_outcome:" + outcome)
         ctx.count("comparisons")
         if is_async:
             ctx.count("async_renders")
@@ -1421,6 +1513,19 @@ def run(ctx):
     if ctx.shard == 0:
         ctx.count("target_forms_total", len(TARGET_FORMS))
         ctx.count("target_forms_executing", sum(1 for f in TARGET_FORMS if form_executes(f)))
+    # ---- attribute targets whose base name is shadowed / rebound around the statement
+    for i, (key, s, tags, shape) in enumerate(rebind_statements(quick, ctx.seed)):
+        if not ctx.mine(i):
+            continue
+        r = i // ctx.nshards + ctx.seed
+        for is_async in (False, True):
+            for ae in (False, True):
+                if (2 * is_async + ae) != r % 4:
+                    # one of the four sync/autoescape combinations per row, rotating with the seed
+                    continue
+                statement_case(ctx, {"kind": "statement", "key": key, "source": s, "group": "rebind",
+                                     "tags": tags, "shape": shape, "async": is_async,
+                                     "autoescape": ae})
     # ---- fixed statements
     for i, (key, s) in enumerate(STATEMENTS):
         if ctx.mine(i):
